@@ -252,7 +252,7 @@ class Bicomplex(object):
         if isinstance(other, (int, np.integer)) and not isinstance(other, (bool, np.bool_)):
             return self._pow_integer(int(other))
         out = (self.log() * other).exp()
-        non_invertible = np.abs(self.mod_c()) < 1e-15
+        non_invertible = np.abs(self.mod_c()) <= 1e-15 * self.norm()  # zero divisors (and 0), whatever the scale
         if non_invertible.any():
             out[non_invertible] = self[non_invertible]._pow_singular(other)
         return out
